@@ -562,6 +562,15 @@ class _Norm(ast.NodeTransformer):
         """N12: a, b = x, y  ->  a = x; b = y   when no target is read by a later element (plain names only)"""
         out = []
         for st in stmts:
+            # N33: _, x = f(..)  ->  x = f(..)[1]   (one real name among `_` placeholders, right-hand side not a tuple display)
+            if isinstance(st, ast.Assign) and len(st.targets) == 1 and isinstance(st.targets[0], ast.Tuple) and not isinstance(st.value, ast.Tuple) and \
+                    all(isinstance(t, ast.Name) for t in st.targets[0].elts):
+                real = [(k, t) for k, t in enumerate(st.targets[0].elts) if t.id != '_' and self.counts.get(t.id, (0, 1))[1] > 0]     # a name nobody reads is a placeholder
+                if len(real) == 1 and len(st.targets[0].elts) >= 2:
+                    k, t = real[0]
+                    out.append(ast.copy_location(ast.Assign(targets=[ast.Name(id=t.id, ctx=ast.Store())],
+                                                            value=ast.Subscript(value=st.value, slice=ast.Constant(value=k), ctx=ast.Load())), st))
+                    continue
             if isinstance(st, ast.Assign) and len(st.targets) == 1 and isinstance(st.targets[0], ast.Tuple) and isinstance(st.value, ast.Tuple) and \
                     len(st.targets[0].elts) == len(st.value.elts) and all(isinstance(t, ast.Name) for t in st.targets[0].elts):
                 names = [t.id for t in st.targets[0].elts]
